@@ -639,7 +639,11 @@ fn finish(prop: &dyn Property, tier: Tier, seed: u64, agg: Obs, workloads: &[(St
     // coverage floor
     let mut harness_errors = agg.harness_errors.clone();
     for (key, floor) in prop.required(tier) {
-        let got = agg.counters.get(&key).copied().unwrap_or(0);
+        // "distinct:<prefix>" = number of different counters whose name starts with <prefix>
+        let got = match key.strip_prefix("distinct:") {
+            Some(prefix) => agg.counters.keys().filter(|k| k.starts_with(prefix)).count() as u64,
+            None => agg.counters.get(&key).copied().unwrap_or(0),
+        };
         if got < floor && !agg.budget_exhausted {
             harness_errors.push(format!("coverage floor not reached: {} = {} < {}", key, got, floor));
         }
